@@ -73,6 +73,15 @@ def run(ctx):
                 ev += [{"e": "tick", "g": 0, "t": 6 * j - 1}, {"e": "pong", "g": j, "t": 6 * j}]
             stim.append({"t": len(stim) + 1, "p": 4, "keepAlive": True, "maxRetries": mr, "events": ev, "ackPongDirected": ack})
             nallans += 1
+    # the same with every pong at the very instant of its ping: on stream connections it is delivered before the write of the ping
+    # has returned (flag fast)
+    for mr in (1, 2, 3):
+        ev = []
+        for j in range(1, mr + 4):
+            ev += [{"e": "tick", "g": 0, "t": 5 * j}, {"e": "pong", "g": j, "t": 5 * j}]
+        ev += [{"e": "tick", "g": 0, "t": 5 * (mr + 3) + 5 * j} for j in range(1, mr + 3)]
+        stim.append({"t": len(stim) + 1, "p": 4, "keepAlive": True, "maxRetries": mr, "events": ev, "fast": True})
+        nallans += 1
     ctx.cov["histories_every_ping_answered"] = nallans
     # every 5th history (thorough: every 2nd) and all directed ones also against a real udp server on a loopback socket
     for k, s_ in enumerate(stim):
@@ -82,6 +91,8 @@ def run(ctx):
     # every second history without keep-alive: the stream peer's bytes never end on a message boundary
     for k, s_ in enumerate(stim):
         s_["pipelined"] = (not s_["keepAlive"]) and k % 2 == 0
+    for s_ in stim:
+        s_.setdefault("fast", False)
     for k, s_ in enumerate(stim):
         s_["crowd"] = bool(s_.get("srv")) and k % 2 == 0
     ctx.cov["histories_with_other_peers_coming_and_going"] = sum(1 for s_ in stim if s_["crowd"])
